@@ -26,7 +26,7 @@ def build(tier):
     conds += [Cond("chars_empty", "prop", T, group="chars"), Cond("chars_empty__twin", "twin", 40, group="chars")]
     # (2) segment level (Mode A), partitioned by base flavour and first segment
     ns = 7 if q else len(L.SEGS)
-    nseg = 3 if q else 4
+    nseg = 3  # (4 segments x 12 segment shapes would be 27 648 paths per condition)
     for bi in range(len(L.BASES)):
         for s0 in range(ns if not q else 3):
             name = f"segs_b{bi}_s{s0}"
